@@ -410,9 +410,13 @@ struct Ref {
             break; }
         case K_REGSCALAR: {
             for (auto& r : op.recs) {
-                const int a = r.tgt; ensure(a); RArr& A = arr[a];
+                const int a = r.tgt; RArr& A = arr[a];
+                // double targets are created by the mere mention; integer targets only when the record has an effect (the library
+                // skips region records on integer arrays altogether, known finding C12:EQUALREG-int:*; an empty region defines nothing)
+                if (!meta[a].is_int) ensure(a);
                 std::vector<int> cells; if (!region_cells(r.set, r.reg, cells)) return;
                 if (cells.empty()) continue;
+                ensure(a);
                 const double sv = scalar_value(op.kw, a, r.val);
                 for (int g : cells) {
                     if (op.kw == "EQUALREG") { A.v[g] = sv; A.s[g] = VAL; continue; }
@@ -819,6 +823,7 @@ int main(int argc, char** argv) {
         "preconditions taken over from the library's explicit error messages (programs violating them are counted as illegal, not compared): ADD/MULTIPLY/MINVALUE/MAXVALUE need a target that was mentioned before (except multipliers); COPY/COPYREG need a source that is fully defined on the active cells and copy explicitly assigned values only; OPERATE/COPY between an all-cells-storage array (PERMX/PERMY) and an active-cell-storage array is unsupported; region sets must be fully defined",
         "all-cells storage rule: for PERMX/PERMY (stored for inactive cells too, FieldProps.hpp 'Regarding global keywords') box operations that read an INACTIVE cell without value are rejected by the library; such rejections are counted (rejected_by_global_storage_rule), not reported",
         "activity coupling: EclipseState deactivates cells with zero pore volume after GRID/EDIT. In ACTNUM-only patterns the base deck has PORO>0, NTG>0 everywhere and the alphabet keeps them positive; in late-deactivation patterns the reference treats zero-pore-volume cells as active during GRID/EDIT (legality, top-layer fill, region operations) and as inactive afterwards, computing the removed set from its own PORO, NTG, MULTPV values at the end of EDIT (programs may revive cells, e.g. ADD PORO); the library's final ACTNUM must equal that set (key C12:DEACT:activity)",
+        "a region record on an INTEGER array whose region holds no active cell is taken to define nothing (the array does not start to exist), matching the library, which skips such records altogether (known finding C12:EQUALREG-int)",
         "findings on the base deck alone (no program operation needed, e.g. PORO itself wrong after the compaction) get the key class BASE",
         "violation keys name the operation class of the SHORTEST prefix of the program that already misbehaves on the same grid and ACTNUM pattern",
         "per-cell status of partially defined double arrays and the all-cells storage are read through FieldPropsManager::get_double_field_data(kw, true) (public, auxiliary observation)",
